@@ -10,7 +10,7 @@ SERVES = {
     "C22": dict(
         technique="TLA+ spec HandlerCfg.tla model-checked by TLC; every (configuration, reconfiguration) edge of the model replayed on the real EvmBuilder/Evm/Handler API and the configuration projected by executing three fixed transactions on it (spec->impl conformance)",
         level="TLC enumerates every state of the handler-configuration specification (beneficiary decision x hardfork x register list x committed transactions) reachable by at most 4 (quick) / 6 (thorough) operations after construction over the forks BERLIN, LONDON, CANCUN (and PRAGUE in the thorough tier), checks the property's clauses (beneficiary paid iff configured, all other effects equal to the rewards-on twin, the decision is permanent, frame conditions of every operation) as invariants/action properties, and prints every edge with the expected projection. The harness replays each edge's history on the real builder/Evm (with_spec_id, modify_spec_id, create_handle_generic, append register through builder and on the handler, pop_handle_register, modify().build(), transact_commit), then executes a plain transfer, a LOG0 call and a reverting call on the resulting EVM and compares status, gas used, refund, log count, sender debit, recipient credit, beneficiary credit, nonce, inspector activity and the order in which position-recording end-hooks run with the specification's values. Exhaustive for the bounded history length, so a rebuild path that drops or re-enables the switch, loses or doubles a register, or keeps the old fork's fee rule is detected.",
-        note="Trusted: HandlerCfg.tla as the statement of the property; the adapter harness/src/bin/handlercfg.rs. Built without the optimism feature: the Optimism fee-vault half of the property is not covered. Rewards are disabled the only way the public API offers (Handler::mainnet_with_spec(spec, false) + EvmBuilder::with_handler). Builder calls documented as resetting the handler (reset_handler*) and calls that replace the handler or the types it is generic over (with_handler, with_db, with_ref_db, with_empty_db, with_external_context) are not reconfigurations in the sense of the property and are only reported as information. Block env carries a non-zero base fee on every fork; before London it must be ignored.",
+        note="Trusted: HandlerCfg.tla as the statement of the property; the adapter harness/src/bin/handlercfg.rs. Built without the optimism feature: the Optimism fee-vault half of the property is decided by the OpFees engine (second part of this check), not here. Rewards are disabled the only way the public API offers (Handler::mainnet_with_spec(spec, false) + EvmBuilder::with_handler). Builder calls documented as resetting the handler (reset_handler*) and calls that replace the handler or the types it is generic over (with_handler, with_db, with_ref_db, with_empty_db, with_external_context) are not reconfigurations in the sense of the property and are only reported as information. Block env carries a non-zero base fee on every fork; before London it must be ignored.",
         ref="DESIGN.md section 3, C22"),
 }
 
@@ -60,7 +60,7 @@ def run(ctx, pid):
     res.extra["outside_the_action_set"] = [{k: v for k, v in i.items() if k != "kind"} for i in info]
     res.exhaustive = True
     res.assumptions += [
-        "optimism feature off: the fee vaults are not covered",
+        "optimism feature off in this engine: the fee vaults are decided by the OpFees engine (reward = FALSE configurations)",
         "rewards are disabled with Handler::mainnet_with_spec(spec, false) handed to EvmBuilder::with_handler",
         "reset_handler*, with_handler, with_db, with_ref_db, with_empty_db, with_external_context are not in the action set",
         "the inspector register is registered at most once",
